@@ -152,11 +152,14 @@ theorem boostTargets_item {f : Nat} {t : Item} (h : t ∈ boostTargets cfg f) : 
 /-- **Payload of the fleet boosts**, relative to a reference reader `R`: for every configured (hence loaded)
 item `a` with a running fleet-boost effect `e`, the registered warfare-buff modifiers are (a permutation of)
 the specification's `buffModifiers` of `a` under `R`, and the recorded targets are (a permutation of) the
-ships the specification boosts: the ship of `a`'s fit and the ships of the fits in the same fleet. -/
+ships the specification boosts: the ship of `a`'s fit and the ships of the fits in the same fleet — unless the
+projector has no projected modifier at all (no template for its buff ids, no buff id attribute, no
+target-domain modifier of its own): the service publishes `EffectApplied` per buff id attribute that has
+templates, so for such a boost it records no targets, and none matter. -/
 def BuffPayloadFor (u : Universe) (cfg : Config) (R : Reader) (d : Dyn) : Prop :=
   ∀ a ∈ cfg.items, ∀ e ∈ runningEffects u cfg a, e.isBuff = true →
     (∃ bms, buffModifiers u R a = .ok bms ∧ (d.bspecs a.id e.id).Perm bms) ∧
-    (d.tgts a.id e.id).Perm ((boostTargets cfg a.fit).map (·.id))
+    (projMods u d a e = [] ∨ (d.tgts a.id e.id).Perm ((boostTargets cfg a.fit).map (·.id)))
 
 /-- A settled dynamic state of a universe with fleet boosts: the derived state on loaded items, running
 effects and the recorded targets of ordinary effects; the specification's payload for the boosts. -/
@@ -198,10 +201,10 @@ theorem targetsOf_settled (hc : UniqueIds cfg) (hd : BuffSettledFor u cfg R d) {
   exact targetsOf_derived_running hc ha (by rw [running_derived hc ha]; exact he)
 
 /-- Recorded targets of a running fleet boost: the ships the specification boosts. -/
-theorem targetsOf_settled_buff (hd : BuffSettledFor u cfg R d) {a : Item} (ha : a ∈ cfg.items)
-    {e : Effect} (he : e ∈ runningEffects u cfg a) (hbf : e.isBuff = true) :
+theorem targetsOf_settled_buff {a : Item} {e : Effect}
+    (hp : (d.tgts a.id e.id).Perm ((boostTargets cfg a.fit).map (·.id))) :
     (targetsOf cfg d a e).Perm (boostTargets cfg a.fit) := by
-  have h := ((hd.payload a ha e he hbf).2).filterMap (item? cfg)
+  have h := hp.filterMap (item? cfg)
   unfold targetsOf
   refine h.trans (List.Perm.of_eq ?_)
   rw [List.filterMap_map]
@@ -281,14 +284,34 @@ theorem specs_item_perm_buff (hc : UniqueIds cfg) (hnp : ∀ e ∈ u.effects, e.
     | true =>
       have hcat : (e.category == 2) = false := by
         simpa using hnp e (runningEffects_mem he) hbf
-      obtain ⟨⟨bms, hR, hperm⟩, _⟩ := hd.payload a ha e he hbf
+      obtain ⟨⟨bms, hR, hperm⟩, htg⟩ := hd.payload a ha e he hbf
       simp only [Bool.or_true, if_true, projectionTargets, hcat, Bool.false_eq_true, if_false,
         List.flatMap_nil, List.nil_append]
       rw [List.filter_flatMap]
       unfold boostSpecsW
-      refine ((targetsOf_settled_buff hd ha he hbf).flatMap_right _).trans ?_
-      exact List.Perm.flatMap_left _ fun t _ =>
-        projMods_filter_perm hbf hperm (buffModifiers_ok hR) (hB e he hbf bms hR) t
+      rcases htg with hnil | htg
+      · -- no projected modifier at all: nothing on either side, whatever targets are recorded
+        have hnil' := hnil
+        unfold projMods at hnil'
+        rw [if_pos hbf, List.append_eq_nil_iff] at hnil'
+        have hbms : bms = [] := by
+          have h1 : ((d.bspecs a.id e.id).filter (bspecOK u)).Perm bms :=
+            (hperm.filter _).trans (List.Perm.of_eq (List.filter_eq_self.2 (buffModifiers_ok hR)))
+          rw [hnil'.2] at h1
+          exact h1.nil_eq.symm
+        have hBnil : B.filter (·.tgtAttr == attr) = [] := by rw [hB e he hbf bms hR, hbms]; rfl
+        have hW : ∀ t : Item, (B ++ e.mods.filter (·.domain == 4)).filter
+            (fun m => m.tgtAttr == attr && affectsProjected cfg a m t x tx) = [] := by
+          intro t
+          rw [hnil'.1, List.append_nil, List.filter_eq_nil_iff]
+          intro m hm hpm
+          simp only [Bool.and_eq_true] at hpm
+          exact List.filter_eq_nil_iff.1 hBnil m hm hpm.1
+        simp only [hnil, hW, List.map_nil, List.filter_nil]
+        rw [List.flatMap_eq_nil_iff.2 (fun _ _ => rfl), List.flatMap_eq_nil_iff.2 (fun _ _ => rfl)]
+      · refine ((targetsOf_settled_buff htg).flatMap_right _).trans ?_
+        exact List.Perm.flatMap_left _ fun t _ =>
+          projMods_filter_perm hbf hperm (buffModifiers_ok hR) (hB e he hbf bms hR) t
   rw [List.filter_append, hl]
   refine (List.Perm.append_left _ hp).trans ?_
   refine (List.flatMap_append_perm _ _ _).trans (List.Perm.of_eq ?_)
